@@ -21,12 +21,13 @@ def PrintPureStatement (init : PrinterState) : Prop :=
 
 /-! ### the fixed code: the state is a collection and never changes
 
-`print_pure` for the fixed code is delivered as `print_pure_partial`: every access to the state goes through
-`printDirectives` → `keepCustom` → `PrinterState.member` (by construction of the model, checked against the
-real printer by the history correspondence), and these three are proved state-preserving and pure for a
-collection-valued state. The lift through the (state-passing) layout functions `printArguments`,
-`printFields`, `printType`, `printSchema`, `runHistory` to `PrintPureStatement initialCollection` is not
-machine-checked yet (open problem). -/
+`print_pure` is proved IN FULL for the fixed code (collection-valued state): every access to the state goes through
+`printDirectives` → `keepCustom` → `PrinterState.member`; these are state-preserving for a collection
+(`printDirectives_state_fixed`), the lift through the state-passing layout functions is `printSchema_state_fixed`, and the
+induction over the history is `print_pure` (any collection: `print_pure_any_collection`; with `include_introspection`:
+`print_pure_all_options`).  `print_pure_partial` (registered name) is the lemma that the directive filter is the pure
+`filter keepPred`.  What is NOT in the model: nothing of the printer's option space; the model is tied to the code by
+the history correspondence (every call of every history, all four options, compared with the real text). -/
 
 private theorem pair_of_snd {α β} (x : α × β) (b : β) (h : x.2 = b) : x = (x.1, b) := by
   cases x; simp_all
